@@ -1213,33 +1213,49 @@ isal_deflate_stateless_init(struct isal_zstream *stream)
         return;
 }
 
+static void
+fill_hash_table(uint16_t *hash_table, uint32_t entries, uint16_t value)
+{
+        uint32_t i;
+
+        for (i = 0; i < entries; i++)
+                hash_table[i] = value;
+}
+
 void
 isal_deflate_hash(struct isal_zstream *stream, uint8_t *dict, uint32_t dict_len)
 {
-        /* Reset history to prevent out of bounds matches this works because
+        /* Reset history to prevent out of bounds matches. Hash table entries are
+         * positions in the stream, so every entry is set to the position of the
+         * last byte of the dictionary (total_in - 1); this works because
          * dictionary must set at least 1 element in the history */
         struct level_buf *level_buf = (struct level_buf *) stream->level_buf;
         uint32_t hash_mask = stream->internal_state.hash_mask;
+        uint16_t last = (uint16_t) (stream->total_in - 1);
 
         switch (stream->level) {
         case 3:
-                memset(level_buf->lvl3.hash_table, -1, sizeof(level_buf->lvl3.hash_table));
+                fill_hash_table(level_buf->lvl3.hash_table,
+                                sizeof(level_buf->lvl3.hash_table) / sizeof(uint16_t), last);
                 isal_deflate_hash_lvl3(level_buf->lvl3.hash_table, hash_mask, stream->total_in,
                                        dict, dict_len);
                 break;
 
         case 2:
-                memset(level_buf->lvl2.hash_table, -1, sizeof(level_buf->lvl2.hash_table));
+                fill_hash_table(level_buf->lvl2.hash_table,
+                                sizeof(level_buf->lvl2.hash_table) / sizeof(uint16_t), last);
                 isal_deflate_hash_lvl2(level_buf->lvl2.hash_table, hash_mask, stream->total_in,
                                        dict, dict_len);
                 break;
         case 1:
-                memset(level_buf->lvl1.hash_table, -1, sizeof(level_buf->lvl1.hash_table));
+                fill_hash_table(level_buf->lvl1.hash_table,
+                                sizeof(level_buf->lvl1.hash_table) / sizeof(uint16_t), last);
                 isal_deflate_hash_lvl1(level_buf->lvl1.hash_table, hash_mask, stream->total_in,
                                        dict, dict_len);
                 break;
         default:
-                memset(stream->internal_state.head, -1, sizeof(stream->internal_state.head));
+                fill_hash_table(stream->internal_state.head,
+                                sizeof(stream->internal_state.head) / sizeof(uint16_t), last);
                 isal_deflate_hash_lvl0(stream->internal_state.head, hash_mask, stream->total_in,
                                        dict, dict_len);
         }
@@ -1290,6 +1306,8 @@ isal_deflate_reset_dict(struct isal_zstream *stream, struct isal_dict *dict)
 {
         struct isal_zstate *state = &stream->internal_state;
         struct level_buf *level_buf = (struct level_buf *) stream->level_buf;
+        uint16_t *hash_table;
+        uint32_t entries, i;
         int ret;
 
         if ((state->state != ZSTATE_NEW_HDR) ||
@@ -1307,24 +1325,29 @@ isal_deflate_reset_dict(struct isal_zstream *stream, struct isal_dict *dict)
         state->b_bytes_valid = dict->hist_size;
         state->has_hist = IGZIP_DICT_HASH_SET;
 
+        /* The processed dictionary holds positions in a stream that starts with the
+         * dictionary (total_in == 0); move them to the current position */
         switch (stream->level) {
         case 3:
-                memcpy(level_buf->lvl3.hash_table, dict->hashtable,
-                       sizeof(level_buf->lvl3.hash_table));
+                hash_table = level_buf->lvl3.hash_table;
+                entries = sizeof(level_buf->lvl3.hash_table) / sizeof(uint16_t);
                 break;
 
         case 2:
-                memcpy(level_buf->lvl2.hash_table, dict->hashtable,
-                       sizeof(level_buf->lvl2.hash_table));
+                hash_table = level_buf->lvl2.hash_table;
+                entries = sizeof(level_buf->lvl2.hash_table) / sizeof(uint16_t);
                 break;
         case 1:
-                memcpy(level_buf->lvl1.hash_table, dict->hashtable,
-                       sizeof(level_buf->lvl1.hash_table));
+                hash_table = level_buf->lvl1.hash_table;
+                entries = sizeof(level_buf->lvl1.hash_table) / sizeof(uint16_t);
                 break;
         default:
-                memcpy(stream->internal_state.head, dict->hashtable,
-                       sizeof(stream->internal_state.head));
+                hash_table = stream->internal_state.head;
+                entries = sizeof(stream->internal_state.head) / sizeof(uint16_t);
         }
+
+        for (i = 0; i < entries; i++)
+                hash_table[i] = dict->hashtable[i] + (uint16_t) stream->total_in;
 
         return COMP_OK;
 }
